@@ -51,38 +51,52 @@ def message_class(msg):
     return msg[:80]
 
 
+def module_file(crate, harness):
+    """harness path 'a::b::verif_proofs::name' -> '<crate>/src/a/b.rs' ('verif_proofs::name' -> lib.rs)"""
+    parts = harness.split("::")[:-2]
+    if not parts:
+        return os.path.join(crate, "src", "lib.rs")
+    return os.path.join(crate, "src", *parts) + ".rs"
+
+
+def insert_tests(ws, relfile, srcs):
+    """append test functions inside the spliced module (before its closing brace)"""
+    f = os.path.join(ws.ws, relfile)
+    s = open(f).read()
+    i = s.rstrip().rfind("}")
+    s = s[:i] + "\n" + "\n".join(srcs) + "\n}\n"
+    open(f, "w").write(s)
+
+
 def generate_playback_tests(ws, crate, harness, features=(), timeout=900, log_dir=None):
-    """Runs the harness with --concrete-playback=inplace; returns list of (test_name, test_src)."""
-    src_before = {}
+    """Runs the harness with --concrete-playback=print, inserts the printed unit tests at the end of the
+    spliced module; returns list of (test_name, test_src, file)."""
     cmd = ["cargo", "kani", "-p", crate, "--exact", "--harness", harness, "-Z", "stubbing",
-           "-Z", "concrete-playback", "--concrete-playback=inplace", "--output-format", "terse"]
+           "-Z", "concrete-playback", "--concrete-playback=print", "--output-format", "terse"]
     if features:
         cmd += ["--features", ",".join(features)]
+    env = _env()
+    env["PATH"] = os.path.join(os.path.dirname(os.path.dirname(os.path.abspath(__file__))), "tools", "bin") + ":" + env["PATH"]
     try:
-        p = subprocess.run(cmd, cwd=ws.ws, env=_env(), stdout=subprocess.PIPE,
+        p = subprocess.run(cmd, cwd=ws.ws, env=env, stdout=subprocess.PIPE,
                            stderr=subprocess.STDOUT, timeout=timeout, text=True, errors="replace")
     except subprocess.TimeoutExpired:
         return [], "timeout generating playback"
     out = p.stdout
     if log_dir:
         open(os.path.join(log_dir, "playback-gen.%s.log" % harness.replace("::", ".")), "w").write(out)
-    names = re.findall(r"^\s+- (kani_concrete_playback_\w+)", out, re.M)
+    relfile = module_file(crate, harness)
     tests = []
-    # find the file that now contains the tests
-    short = harness.split("::")[-1]
-    for d, _, files in os.walk(os.path.join(ws.ws, crate, "src")):
-        for f in files:
-            if not f.endswith(".rs"):
-                continue
-            pth = os.path.join(d, f)
-            s = open(pth, errors="replace").read()
-            if "kani_concrete_playback_" + short not in s:
-                continue
-            for n in names:
-                m = re.search(r"(    /// Test generated for harness[^\n]*\n(?:\s*///[^\n]*\n|\s*\n)*\s*#\[test\]\n\s*fn " + n +
-                              r"\(\) \{.*?\n    \}\n)", s, re.S)
-                if m:
-                    tests.append((n, m.group(1), os.path.relpath(pth, ws.ws)))
+    seen = set()
+    for m in re.finditer(r"```\n(.*?)```", out, re.S):
+        src = m.group(1)
+        mm = re.search(r"fn (kani_concrete_playback_\w+)\(\)", src)
+        if not mm or mm.group(1) in seen:
+            continue
+        seen.add(mm.group(1))
+        tests.append((mm.group(1), src, relfile))
+    if tests:
+        insert_tests(ws, relfile, [t[1] for t in tests])
     return tests, out
 
 
